@@ -412,7 +412,12 @@ func hsSearch(c *hsCase, idx comet.HybridSearchIndex, vec comet.VectorIndex, txt
 	if cmd.SetCut {
 		hs = hs.WithCutoff(cutoff)
 	}
-	if cmd.Fusion != "" {
+	if cmd.Fusion != "" && (cmd.K+len(cmd.QT))%4 == 0 {
+		// WithFusionKind = that kind with the default configuration (weights 1, 1, K = 60);
+		// chosen as a function of the command, so replays are unchanged
+		hs = hs.WithFusionKind(comet.FusionKind(cmd.Fusion))
+		vw, tw, rk = 1, 1, 60
+	} else if cmd.Fusion != "" {
 		f, err := comet.NewFusion(comet.FusionKind(cmd.Fusion), &comet.FusionConfig{VectorWeight: vw, TextWeight: tw, K: rk})
 		if err != nil {
 			return "op panic fusion: " + err.Error()
